@@ -2,8 +2,8 @@ package sx
 
 import (
 	"fmt"
-	"os"
 	"math/big"
+	"os"
 	"sort"
 	"strings"
 
